@@ -198,3 +198,9 @@ Definition balances_writes (r:result) : list (nat * bytes) :=
   (0%nat, BALANCES_HEADER) :: map (fun e => (0%nat, balance_row e)) (balances_final (utxo_final (r_delivered r))).
 Definition out_run (k:nat) (L:N) (writes:list (nat * bytes)) : OutProto.fs * OutProto.exitcode :=
   let '(trace, code) := OutProto.run (N.to_nat WCAP) L (writers k) writes in (OutProto.apply_trace [] trace, code).
+
+(* ---------- file names (csvdump.rs / unspentcsvdump.rs / balances.rs: "<stem>.csv.tmp" while writing, "<stem>-<start>-<last height>.csv" once complete) ---------- *)
+Definition tmp_name (stem:bytes) : bytes := stem ++ [46; 99; 115; 118; 46; 116; 109; 112].                        (* ".csv.tmp" *)
+Definition final_name (stem:bytes) (s e:N) : bytes := stem ++ [45] ++ dec s ++ [45] ++ dec e ++ [46; 99; 115; 118].    (* "-s-e.csv" *)
+Definition result_names (stems:list bytes) (o:opts) (r:result) : list bytes :=
+  map (fun st => final_name st (o_start (o_range o)) (last_height r)) stems.
